@@ -37,7 +37,11 @@ def run_tlc(module, cfg=None, env=None, workers=4, heap='3g', timeout=1800,
     """Run TLC on spec/<module>.tla; return dict(out, states, distinct, wall, rc)."""
     tag = tag or module
     meta = workdir('tlc_' + tag)
-    cmd = ['java', '-XX:+UseParallelGC', '-XX:ParallelGCThreads=4', '-Xmn512m', f'-Xmx{heap}', '-Xss64m',
+    # StateDeque: TLC's in-memory state queue.  The default disk-backed queue serialises queued states with one byte per
+    # character, so every character >= U+0080 in a state variable comes back corrupted (sign-extended low byte, e.g.
+    # U+00E9 -> U+FFE9) once the queue spills; the specification's alphabets contain NBSP, NEL, U+3000, e-acute ...
+    cmd = ['java', '-Dtlc2.tool.queue.IStateQueue=StateDeque', '-XX:+UseParallelGC', '-XX:ParallelGCThreads=4', '-Xmn512m',
+           f'-Xmx{heap}', '-Xss64m',
            '-cp', JAR, 'tlc2.TLC', '-workers', str(workers), '-metadir', meta,
            '-noGenerateSpecTE', '-deadlock']
     if cfg:
